@@ -1720,7 +1720,16 @@ func mergeIte(outs []Outcome, n int, depth int) (*Term, bool) {
 	if !ok1 || !ok2 {
 		return nil, false
 	}
-	return mkIte(split.Term(), a, b), true
+	// keep the branch condition as the program wrote it (typed, machine semantics) when it is known;
+	// the normalised form is only used for conditions that were built by the interpreter itself
+	ct := split.Term()
+	if split.Orig != nil {
+		ct = split.Orig
+		if split.OrigNeg {
+			ct = mkLNot(ct)
+		}
+	}
+	return mkIte(ct, a, b), true
 }
 
 func mergeIteSkip(outs []Outcome, n int, skip string, depth int) (*Term, bool) {
